@@ -41,6 +41,7 @@ type c19Scen struct {
 	Specs   []c19Req `json:"request_specs"`
 	Order   []int    `json:"sequential_order"`
 	Clients [][]int  `json:"clients"`
+	Gone    [][]int  `json:"client_gone_at_write"` // per client and request: k>0 = the writer fails from write #k-1 on
 	entry   int
 }
 
@@ -56,17 +57,17 @@ func genC19(x *Ctx) *c19Scen {
 	sc.entry = tp.G(2)
 	sc.Entry = entryName(sc.entry)
 	sc.Preempt = []int{300, 100, 500}[tp.G(3)]
-	nSpecs := tp.Range(2, 5)
+	maxSpecs := 5
 	maxTotal := 10
 	if x.Thorough() {
-		nSpecs = tp.Range(2, 8)
+		maxSpecs = 8
 		maxTotal = 40
 	}
 	shapes := []struct{ m, p string }{
 		{"GET", "/u/%s"}, {"GET", "/u/%s/sub/k%s"}, {"POST", "/u/%s"}, {"GET", "/v/t%s/items/%s"}, {"PUT", "/u/%s"},
 		{"GET", "/nowhere/%s"}, {"OPTIONS", "/u/%s"}, {"OPTIONS", "/v/t%s/items/%s"}, {"DELETE", "/v/t%s/items/%s"},
 	}
-	for i := 0; i < nSpecs; i++ {
+	tp.Repeat(2, maxSpecs, 650, func(i int) {
 		sh := shapes[tp.G(len(shapes))]
 		tok := fmt.Sprintf("T%dx", i+1)
 		r := c19Req{Spec: i, Method: sh.m, Tok: tok}
@@ -88,19 +89,22 @@ func genC19(x *Ctx) *c19Scen {
 		r.Accept = []string{"", "application/json", "application/xml", "*/*"}[tp.G(4)]
 		r.Body = r.Method == "POST"
 		sc.Specs = append(sc.Specs, r)
-	}
-	total := tp.Range(3, maxTotal)
-	var inst []int
-	for i := 0; i < total; i++ {
-		inst = append(inst, tp.G(nSpecs))
-	}
-	sc.Order = inst
+	})
+	nSpecs := len(sc.Specs)
 	nClients := tp.Range(2, 4)
 	sc.Clients = make([][]int, nClients)
-	for _, sp := range inst {
+	sc.Gone = make([][]int, nClients)
+	tp.Repeat(3, maxTotal, 750, func(int) {
+		sp := tp.G(nSpecs)
+		sc.Order = append(sc.Order, sp)
 		c := tp.G(nClients)
 		sc.Clients[c] = append(sc.Clients[c], sp)
-	}
+		gone := 0
+		if tp.Chance(70) {
+			gone = 1 + tp.G(3)
+		}
+		sc.Gone[c] = append(sc.Gone[c], gone)
+	})
 	return sc
 }
 
@@ -174,6 +178,12 @@ func c19Build(sc *c19Scen) *restful.Container {
 }
 
 func (r *c19Req) serve(c *restful.Container, entry int, t *sim.Task, id int) string {
+	s, _ := r.serveGone(c, entry, t, id, 0)
+	return s
+}
+
+// serveGone: with gone > 0 the client's writer fails from underlying write #gone-1 on.
+func (r *c19Req) serveGone(c *restful.Container, entry int, t *sim.Task, id int, gone int) (string, bool) {
 	hdr := map[string]string{}
 	if r.Origin != "" {
 		hdr["Origin"] = r.Origin
@@ -196,8 +206,14 @@ func (r *c19Req) serve(c *restful.Container, entry int, t *sim.Task, id int) str
 		hr = NewReq(r.Method, r.Path, hdr, &sim.SimBody{T: t, Data: []byte(`{"a":1}`)}, 7, id)
 	}
 	w := sim.NewSimWriter(t)
+	if gone > 0 {
+		w.FaultMode, w.FailAt = sim.WFaultFail, gone-1
+	}
 	esc := Serve(c, entry, w, hr)
-	return c19Response(w, esc)
+	if w.Fired > 0 && t != nil {
+		t.Count("fault-wfail")
+	}
+	return c19Response(w, esc), w.Fired > 0
 }
 
 // c19Response renders everything the framework decides about a response.
@@ -247,7 +263,11 @@ func runC19(x *Ctx) {
 			for k, sp := range cl {
 				t.Req = 1000*ci + k + 1
 				t.Y(sim.SiteStart)
-				got[ci][k] = sc.Specs[sp].serve(cp, sc.entry, t, t.Req)
+				var lost bool
+				got[ci][k], lost = sc.Specs[sp].serveGone(cp, sc.entry, t, t.Req, sc.Gone[ci][k])
+				if lost {
+					got[ci][k] = "" // the client went away: nothing is promised about what it received
+				}
 				t.Yield(sim.SiteCheckpoint, sim.KCheckpoint, 0, 0)
 			}
 		})
@@ -261,7 +281,7 @@ func runC19(x *Ctx) {
 	checkNoEscapes(x, s)
 	for ci, cl := range sc.Clients {
 		for k, sp := range cl {
-			if got[ci][k] != ref[sp] {
+			if got[ci][k] != "" && got[ci][k] != ref[sp] {
 				x.Violate("schedule-dependent", "client %d request %d: %s %s served concurrently with others answered\n  %s\nalone on a fresh container (tracing flipped) it is answered\n  %s", ci, k, sc.Specs[sp].Method, sc.Specs[sp].Path, got[ci][k], ref[sp])
 			}
 		}
